@@ -3,7 +3,7 @@
 UNIT_RLIMIT = {}      # unit -> --rlimit
 UNIT_TIMEOUT = {}     # unit -> seconds
 UNIT_EXPECT = {       # unit -> minimum number of verified functions on the unchanged tree (vacuity guard)
-    "core": 31, "add": 29, "kernels": 79, "addmul": 71,
+    "core": 31, "add": 29, "kernels": 79, "addmul": 71, "addmul_n": 73,
 }
 
 COMMON_TRUST = [
@@ -45,9 +45,9 @@ PROPS = {
                    "Kani proves the linear kernels (adc_n, sbb_n, add_nx1, shifts, cmp) per length and supplies counterexamples",
         level_note="assumed in Verus: add_nx1's contract (early return inside an iter_mut loop; discharged per length <= 6 by Kani), slice length stability axiom, "
                    "core integer specs (u64::overflowing_add/sub, wrapping_neg, i8::from(bool), cmp::min); shift_left_small/shift_right_small and add_nx1 are decided by Kani only (lengths 0,1,3,6: complete per length); "
-                   "addmul_n's unrolled kernels addmul_1..4 are private (see unit addmul_n)",
+                   "addmul_n and its private unrolled kernels addmul_1..4 are proved in unit addmul_n",
         technique="deductive contracts (Verus, all lengths) + Kani per-length contract harnesses",
-        units=["kernels", "addmul"],
+        units=["kernels", "addmul", "addmul_n"],
         kani=dict(
             features=None,
             quick=["c15::c15_adc_sbb_n0", "c15::c15_adc_sbb_n1", "c15::c15_adc_sbb_n3", "c15::c15_adc_sbb_n6",
